@@ -62,7 +62,7 @@ theorem mem_getDomain {s : Store} {name : Name} {f : Filter} {now : Nat} {x : RR
   constructor
   · rintro ⟨g, ⟨hg, _⟩, hx⟩
     by_cases hsub : f.subdomain = true
-    · rw [if_pos hsub] at hg ⊢
+    · simp only [if_pos hsub] at hg ⊢
       by_cases hn : s.nodeExists (getKey name) = true
       · rw [if_pos hn] at hg
         obtain ⟨e, he, rfl⟩ := List.mem_map.mp hg
@@ -70,7 +70,7 @@ theorem mem_getDomain {s : Store} {name : Name} {f : Filter} {now : Nat} {x : RR
         rw [List.mem_filter] at he hp
         exact ⟨e.2, p.2, hp.1, hp.2, hn, e.1, he.1, he.2⟩
       · rw [if_neg hn] at hg; cases hg
-    · rw [if_neg hsub] at hg ⊢
+    · simp only [if_neg hsub] at hg ⊢
       cases hb : s.bucket (getKey name) with
       | none => rw [hb] at hg; cases hg
       | some b =>
@@ -260,7 +260,7 @@ theorem mem_answersFor {s : Store} {qu : Question} {now : Nat} {a : RR} :
     a ∈ (answersFor s qu now).1 ↔
       a ∈ (s.getDomain qu.name (Filter.auth true) now).flatten ∧
       a.matchQClass qu.qclass = true ∧ a.matchQType qu.qtype = true := by
-  simp [answersFor, List.mem_filter]
+  simp only [answersFor, List.mem_filter, Bool.and_eq_true]
 
 theorem mem_answersOf {q : Packet} {s : Store} {now : Nat} {a : RR} :
     a ∈ answersOf q s now ↔ ∃ qu ∈ q.questions,
